@@ -621,6 +621,20 @@ where
         self.periodic_vertex_offsets.as_deref()
     }
 
+    /// Verification hook (fault injection): mutable access to the vertex-key slots.
+    #[cfg(feature = "verif-hooks")]
+    #[doc(hidden)]
+    pub fn verif_vertices_mut(&mut self) -> &mut CellVertexBuffer {
+        &mut self.vertices
+    }
+
+    /// Verification hook (fault injection): mutable access to the neighbor buffer.
+    #[cfg(feature = "verif-hooks")]
+    #[doc(hidden)]
+    pub fn verif_neighbors_mut(&mut self) -> &mut Option<NeighborBuffer<Option<CellKey>>> {
+        &mut self.neighbors
+    }
+
     /// Sets periodic lattice offsets aligned with `vertices`.
     #[inline]
     pub(crate) fn set_periodic_vertex_offsets(&mut self, offsets: Vec<[i8; D]>) {
